@@ -147,6 +147,7 @@ func withAuth(p *pkt, spi uint32, alg uint8) {
 type runner struct {
 	c        *lib.Ctx
 	sandboxN int
+	perSig   map[string]int
 }
 
 func (g *runner) do(op string) (string, bool) {
@@ -184,7 +185,16 @@ func (g *runner) run(p *pkt, tag string, badmac bool) string {
 	o := last
 	c.Count("outcome:" + o.kind)
 	fail := func(sig, what string, detail map[string]any) {
-		c.Fail(sig, what, []string{op}, detail)
+		// lib caps the failure log at 200 records: keep a few per signature so that no class
+		// of failure hides another one
+		if g.perSig == nil {
+			g.perSig = map[string]int{}
+		}
+		g.perSig[sig]++
+		c.Count("fail:" + sig)
+		if g.perSig[sig] <= 8 {
+			c.Fail(sig, what, []string{op}, detail)
+		}
 	}
 	if o.extra > 0 {
 		fail("C13:extra-datagram", "more than one datagram came back for one request", map[string]any{"answer": ans, "extra": o.extra})
@@ -282,12 +292,12 @@ func beU32(b []byte) uint32 {
 func gen(c *lib.Ctx) {
 	g := &runner{c: c}
 	genAuthFuncs(c)
+	genMalformed(g, c.Rand.Fork("malformed"), c.Scale(80, 400))
+	genNoMock(g, c.Rand.Fork("nomock"), c.Scale(150, 1500))
 	genServe(g, c.Rand.Fork("serve"), c.Scale(1500, 15000))
 	genMutations(g, c.Rand.Fork("mut"), c.Scale(15, 150))
 	genPorts(g, c.Rand.Fork("ports"), c.Scale(800, 7000))
 	genSCMP(g, c.Rand.Fork("scmp"), c.Scale(500, 5000))
-	genMalformed(g, c.Rand.Fork("malformed"), c.Scale(80, 400))
-	genNoMock(g, c.Rand.Fork("nomock"), c.Scale(150, 1500))
 	genDispatcher(g, c.Rand.Fork("disp"), c.Scale(300, 3000))
 	killChildren()
 }
